@@ -1,0 +1,20 @@
+//go:build verif
+
+package sort
+
+// Contracts for the sort plugin (C13, C03, C04, C01, C09), read by /verif's gvc (comment-only file).
+
+//@ func (g *gen) Add(name string, typs []types.Type) (r string, err error)
+//@ param typs: len=0,1,2,3
+//@ param name: classes=Ident
+
+//@ func (g *gen) Generate(typs []types.Type) (err error)
+//@ param typs: len=1
+
+//@ func (g *gen) genFuncFor(typ *types.Slice) (err error)
+//@ emits: decls
+//@ serves: sort len=1 typ=typs[0]
+//@ o-sig: (list $typ) (r $typ)
+//@ o-ensures: [permutation] perm(r, list) && len(r) == len(list)
+//@ o-ensures: [same-elements] (forall k int :: 0 <= k && k < len(list) ==> exists l int :: 0 <= l && l < len(r) && r[l] == list[k]) && (forall k int :: 0 <= k && k < len(r) ==> exists l int :: 0 <= l && l < len(list) && r[k] == list[l])
+//@ o-ensures: [non-decreasing] forall a int, b int :: 0 <= a && a < b && b < len(r) ==> !(CmpTop(elem(typ), r[b], r[a]) < 0)
